@@ -11,6 +11,15 @@
                  ops = `-` or `,`-joined  <k><hexname>:<hexitem>/<hexitem>…  with k = S Args().Set | A Args().Add |
                  s SetArg | a AddArg (nothing after the colon = no items)
                                                          → `<A after the edits> | <B>` (+ ` | <start1> <start2>` for m = a)
+          `F <hex>`   NewProperty(tag text), then lookups through the public API: for every stored name (sorted) the name
+                 itself and the name with its first letter in lower case, then `mapper timeLayout required Qualifier`:
+                 Args().Find(q) and Has(q), Has(q, ""), Has(q, "false", "true")
+                                                         → `<tagval> <args> <required> | <q>=<item>,<item>…:<bits>  <q>!:<bits> …`
+          `B m <hex>`  a struct field tagged prefix:"<text>" scanned by the real prefix scanner, then
+                 Property.Unmarshall(map): which TagName reached mapstructure
+                                                         → `ok Y|J|T|M|F` (yaml, json, toml, mapstructure/empty, anything else) | `panic`
+          `B t <hex> <hexvalue>`  a time.Time field tagged prefix:"<text>", Property.Unmarshall(value text)
+                                                         → `ok <year> <month> <day> <hour> <min> <sec> <nsec>` | `err` | `panic` | `opaque`
     args are printed sorted by name:  name=item,item;name=…   (all hex, `-` = empty, `.` = no args)
 -/
 import Ioc.Tag
@@ -51,6 +60,45 @@ def parseOps (s : String) : Option (List ArgOp) :=
     (dependency_further_matching_processors.go:36-43) -/
 def showStart (a : Args) : String := if isRequired a then "err" else "ok"
 
+/-! lookups (scenario F) and Property.Unmarshall (scenario B) -/
+
+def lowerFirst : Bytes → Bytes
+  | [] => []
+  | b :: rest => (if 65 ≤ b ∧ b ≤ 90 then b + 32 else b) :: rest
+
+def bit (b : Bool) : String := if b then "1" else "0"
+
+def showQuery (a : Args) (q : Bytes) : String :=
+  toHex q ++ (match find a q with
+    | none => "!"
+    | some items => "=" ++ joinWith "," (items.map toHex)) ++ ":" ++
+  bit (has a q []) ++ bit (has a q [[]]) ++ bit (has a q [ofString "false", ofString "true"])
+
+def queriesOf (a : Args) : List Bytes :=
+  let sorted := isort (fun x y => bytesLt x.1 y.1) a
+  (sorted.flatMap fun kv => if lowerFirst kv.1 = kv.1 then [kv.1] else [kv.1, lowerFirst kv.1]) ++
+    [ofString "mapper", ofString "timeLayout", ofString "required", ofString "Qualifier"]
+
+def showFind (r : Option (Bytes × Args)) : String :=
+  match r with
+  | none => "panic"
+  | some (v, a) => showParsed (some (v, a)) ++ " | " ++ joinWith " " ((queriesOf a).map (showQuery a))
+
+def tagNameLetter (n : Bytes) : String :=
+  if n = ofString "yaml" then "Y" else if n = ofString "json" then "J" else if n = ofString "toml" then "T"
+  else if n = [] ∨ n = ofString "mapstructure" then "M" else "F"
+
+def showTime : TimeRes → String
+  | .ok y mo d h mi s ns => "ok " ++ joinWith " " ([y, mo, d, h, mi, s, ns].map toString)
+  | .err => "err"
+  | .unmodelled => "opaque"
+
+def showBind : Option BindRes → String
+  | none => "panic"
+  | some .err => "err"
+  | some (.time t) => showTime t
+  | some (.tagName n) => "ok " ++ tagNameLetter n
+
 def handle (line : String) : String :=
   match line.splitOn " " with
   | ["P", h] =>
@@ -64,6 +112,25 @@ def handle (line : String) : String :=
       | none => "panic"
       | some t => toHex t ++ " " ++ showParsed (parse? t)
     | none => "bad-line"
+  | ["F", h] =>
+    match fromHex h with
+    | some s => showFind (parse? s)
+    | none => "bad-line"
+  | ["B", "m", h] =>
+    -- the prefix scanner (Required = true) creates the property; Unmarshall reads its arguments
+    match fromHex h with
+    | some s =>
+      match scan? true s with
+      | none => "panic"
+      | some (_, a) => showBind (bindTagName? a)
+    | none => "bad-line"
+  | ["B", "t", h, hv] =>
+    match fromHex h, fromHex hv with
+    | some s, some v =>
+      match scan? true s with
+      | none => "panic"
+      | some (_, a) => showBind (bindTime? a v)
+    | _, _ => "bad-line"
   | ["U", cfg, h] =>
     -- cfg = <r><m>: r = the scanner's Required field (1 = true; 0 = left unset, 2 = set to false: the same zero value),
     -- m = how the tag reaches NewProperty (0 tag lookup, 1 ExtractHandler, 2 ExtractHandler with the scanner's tag name);
